@@ -4,6 +4,7 @@ from __future__ import annotations
 import itertools
 import multiprocessing as mp
 import random
+import signal
 import sys
 from concurrent.futures import ThreadPoolExecutor
 from typing import Any, Dict, List, Optional, Tuple
@@ -12,6 +13,9 @@ from vf import tlc, wire
 from vf.core import Ctx, Machinery
 
 ALPHABET = [0x00, 0x01, 0x0C, 0x0D, 0x40, 0xC0, 0xFF, ord('a')]
+
+
+WALL_LIMIT_S = 8.0
 
 
 def cps(s: str) -> List[int]:
@@ -28,6 +32,15 @@ def lib_decode(data: bytes) -> Dict[str, Any]:
         count[0] += 1
     res: Dict[str, Any] = {'exc': '', 'valid': False, 'qs': [], 'rrs': []}
     max_name = 0
+
+    class WallClock(BaseException):
+        pass
+
+    def on_alarm(signum: int, frame: Any) -> None:
+        raise WallClock()
+    # a loop without calls is invisible to the profile counter: a wall-clock limit bounds every case as well
+    old_handler = signal.signal(signal.SIGALRM, on_alarm)
+    signal.setitimer(signal.ITIMER_REAL, WALL_LIMIT_S)
     sys.setprofile(prof)
     try:
         try:
@@ -35,6 +48,8 @@ def lib_decode(data: bytes) -> Dict[str, Any]:
             answers = inc.answers()
         finally:
             sys.setprofile(None)
+            signal.setitimer(signal.ITIMER_REAL, 0)
+            signal.signal(signal.SIGALRM, old_handler)
         res['valid'] = bool(inc.valid)
         if inc.valid:
             for q in inc.questions:
@@ -64,7 +79,9 @@ def lib_decode(data: bytes) -> Dict[str, Any]:
                 max_name = max(max_name, len(r.name))
     except BaseException as ex:  # noqa: BLE001 - RecursionError and friends are exactly what is being looked for
         sys.setprofile(None)
-        res['exc'] = type(ex).__name__
+        res['exc'] = 'DoesNotTerminate' if isinstance(ex, WallClock) else type(ex).__name__
+        if isinstance(ex, WallClock):
+            count[0] = 1000000000          # beyond every budget
     res['events'] = count[0]
     res['maxName'] = max_name
     return res
